@@ -162,7 +162,7 @@ func (m *model) innerTarget(s *tv.Desc) *cand {
 func (m *model) inputFor(c *cand, i int, fl flags) (txt string, invalid bool) {
 	d := c.f.T
 	base := d
-	if base.K == "ptr" {
+	for base.K == "ptr" {
 		base = base.Elem
 	}
 	num := strconv.Itoa(5000 + i)
